@@ -279,7 +279,7 @@ def doRet (s : VmState) (implicit : Bool) : Step :=
 def binArith (s : Core) (op : Opc) : CStep :=
   let (s, b) := s.pop
   let (s, a) := s.pop
-  let (a, b) := if op == .MOD then (a, b) else (coerceEnum a, coerceEnum b)
+  let (a, b) := (coerceEnum a, coerceEnum b)
   match a, b with
   | .int x, .int y =>
     let r : I64 := match op with
